@@ -14,10 +14,10 @@ open Adb Adb.Gen
 abbrev Bucket := List Rule
 abbrev Index := List (Hash × Bucket)
 
-def Index.get (idx : Index) (k : Hash) : Bucket :=
-  match idx.find? (·.1 == k) with
-  | some (_, b) => b
-  | none => []
+/-- `HashMap::get` -/
+def Index.get : Index → Hash → Bucket
+  | [], _ => []
+  | (k', b) :: rest, k => if k' == k then b else Index.get rest k
 
 /-- `insert_dup`'s sorted insertion: before the first larger id; nothing if an equal id is present -/
 def insertSorted (r : Rule) : Bucket → Bucket
@@ -27,10 +27,16 @@ def insertSorted (r : Rule) : Bucket → Bucket
     else if r.id < x.id then r :: x :: xs
     else x :: insertSorted r xs
 
-def Index.insert (idx : Index) (k : Hash) (r : Rule) : Index :=
-  if idx.any (·.1 == k) then
-    idx.map (fun (k', b) => if k' == k then (k', insertSorted r b) else (k', b))
-  else idx ++ [(k, [r])]
+/-- `insert_dup`: `map.entry(k).or_insert_with(Vec::new)` followed by the sorted insertion -/
+def Index.insert : Index → Hash → Rule → Index
+  | [], k, r => [(k, [r])]
+  | (k', b) :: rest, k, r =>
+    if k' == k then (k', insertSorted r b) :: rest else (k', b) :: Index.insert rest k r
+
+/-- number of rules stored under a key (`filter_map.get(&token).map(|f| f.len())`) -/
+def Index.count? : Index → Hash → Option Nat
+  | [], _ => none
+  | (k', b) :: rest, k => if k' == k then some b.length else Index.count? rest k
 
 /-! #### token histogram and bucket choice (`NetworkFilterList::new`) -/
 
@@ -78,12 +84,15 @@ def fuse (base : Rule) (g : List Rule) : Rule :=
   let mask := setBit mask IS_COMPLETE_REGEX (g.any Rule.isCompleteRegex)
   { base with filter := filter, mask := mask, rx := g.any (·.rx) }
 
+/-- is `g` the group whose key (`group_by_criteria`) is `r`'s? -/
+def isHome (r : Rule) (g : List Rule) : Bool :=
+  match g.head? with
+  | some h => sameGroup h r
+  | none => false
+
 /-- `insert_dup(&mut to_fuse, group_by_criteria(&f), f)`: groups in order of first appearance -/
 def addToGroups (gs : List (List Rule)) (r : Rule) : List (List Rule) :=
-  let isHome (g : List Rule) : Bool := match g.head? with
-    | some h => sameGroup h r
-    | none => false
-  if gs.any isHome then gs.map (fun g => if isHome g then g ++ [r] else g) else gs ++ [[r]]
+  if gs.any (isHome r) then gs.map (fun g => if isHome r g then g ++ [r] else g) else gs ++ [[r]]
 
 def groupRules (rs : List Rule) : List (List Rule) := rs.foldl addToGroups []
 
@@ -120,7 +129,7 @@ def Index.size (idx : Index) : Nat := (idx.map (·.2.length)).sum
 def Index.addFilter (idx : Index) (r : Rule) : Index :=
   let total := idx.size
   r.getTokens.foldl (fun idx g =>
-    idx.insert (bestToken (fun t => (idx.find? (·.1 == t)).map (·.2.length)) (total + 1) g) r) idx
+    idx.insert (bestToken idx.count? (total + 1) g) r) idx
 
 /-- `filter_exists` -/
 def Index.filterExists (idx : Index) (r : Rule) : Bool :=
@@ -199,27 +208,37 @@ structure Blocker where
   optimize : Bool := false
 deriving Inhabited
 
+/-- the category `Blocker::new` / `add_filter` sort a rule into (the `if … else if …` chain) -/
+inductive Cat where
+  | csp | removeparam | genericHide | exception | important | tagged | normal | redirectOnly
+deriving DecidableEq, Repr
+
+def cat (f : Rule) : Cat :=
+  if f.isCsp then .csp else if f.isRemoveparam then .removeparam else if f.isGenericHide then .genericHide
+  else if f.isException then .exception else if f.isImportant then .important
+  else if f.tag.isSome && !f.isRedirect then .tagged
+  else if (f.isRedirect && f.alsoBlockRedirect) || !f.isRedirect then .normal else .redirectOnly
+
+/-- the rules `Blocker::new` keeps: neither badfilter rules nor rules whose id equals a badfilter
+    rule's id-without-badfilter -/
+def liveIds (rules : List Rule) : List Rule :=
+  let badIds := (rules.filter Rule.isBadfilter).map Rule.getIdWithoutBadfilter
+  rules.filter (fun f => !(badIds.contains f.getId || f.isBadfilter))
+
 /-- `Blocker::new` -/
 def Blocker.new (rules : List Rule) (optimize : Bool) : Blocker :=
-  let badIds := (rules.filter Rule.isBadfilter).map Rule.getIdWithoutBadfilter
-  let live := rules.filter (fun f => !(badIds.contains f.getId || f.isBadfilter))
-  let redirects := live.filter Rule.isRedirect
-  let cat (f : Rule) : Nat :=
-    if f.isCsp then 0 else if f.isRemoveparam then 1 else if f.isGenericHide then 2
-    else if f.isException then 3 else if f.isImportant then 4
-    else if f.tag.isSome && !f.isRedirect then 5
-    else if (f.isRedirect && f.alsoBlockRedirect) || !f.isRedirect then 6 else 7
-  let pick (n : Nat) := live.filter (fun f => cat f == n)
-  { csp := Index.build (pick 0) optimize
-    exceptions := Index.build (pick 3) optimize
-    importants := Index.build (pick 4) optimize
-    redirects := Index.build redirects optimize
-    removeparam := Index.build (pick 1) false
+  let live := liveIds rules
+  let pick (c : Cat) := live.filter (fun f => cat f == c)
+  { csp := Index.build (pick .csp) optimize
+    exceptions := Index.build (pick .exception) optimize
+    importants := Index.build (pick .important) optimize
+    redirects := Index.build (live.filter Rule.isRedirect) optimize
+    removeparam := Index.build (pick .removeparam) false
     filtersTagged := Index.build [] optimize
-    filters := Index.build (pick 6) optimize
-    genericHide := Index.build (pick 2) optimize
+    filters := Index.build (pick .normal) optimize
+    genericHide := Index.build (pick .genericHide) optimize
     tagsEnabled := []
-    taggedAll := pick 5
+    taggedAll := pick .tagged
     optimize := optimize }
 
 /-- `tags_with_set` -/
@@ -307,36 +326,43 @@ structure Verdict where
   rewritten : Option Str
 deriving Repr, DecidableEq, Inhabited
 
+/-- the tail of `check_parameterised`: how the lookups are combined into the result.  `exc` is the
+    exception lookup (only consulted when a non-important filter matched), `rewritten` the
+    removeparam rewrite (only consulted when no important filter matched). -/
+def assemble (importantF tagged normal exc : Option Rule) (redirect rewritten : Option Str) : Verdict :=
+  let filter := match importantF with
+    | some f => some f
+    | none => match tagged with
+      | some f => some f
+      | none => normal
+  let exception := match filter with
+    | none => none
+    | some f => if f.isImportant then none else exc
+  let important := match filter with | some f => f.isImportant | none => false
+  { matched := exception.isNone && filter.isSome, important, exception := exception.isSome,
+    redirect, rewritten := if important then none else rewritten }
+
 /-- `Blocker::check_parameterised` (with `matched_rule = force_check_exceptions = false`) -/
 def Blocker.check (b : Blocker) (st : Store) (q : Request) : Verdict :=
   if !q.isSupported then ⟨false, false, false, none, none⟩ else
-  let importantF := b.importants.check q b.tagsEnabled
-  let filter := match importantF with
-    | some f => some f
-    | none => match b.filtersTagged.check q b.tagsEnabled with
-      | some f => some f
-      | none => b.filters.check q []
-  let exception := match filter with
-    | none => none
-    | some f => if f.isImportant then none else b.exceptions.check q b.tagsEnabled
-  let redirectFilters := b.redirects.checkAll q []
-  let redirect := (chooseRedirect redirectFilters).bind st.redirect
-  let important := match filter with | some f => f.isImportant | none => false
-  let rewritten := if important then none else
-    Removeparam.apply q.originalUrl ((b.removeparam.checkAll q []).filterMap (·.modifier))
-  { matched := exception.isNone && filter.isSome, important, exception := exception.isSome,
-    redirect, rewritten }
+  assemble (b.importants.check q b.tagsEnabled) (b.filtersTagged.check q b.tagsEnabled)
+    (b.filters.check q []) (b.exceptions.check q b.tagsEnabled)
+    ((chooseRedirect (b.redirects.checkAll q [])).bind st.redirect)
+    (Removeparam.apply q.originalUrl ((b.removeparam.checkAll q []).filterMap (·.modifier)))
 
-/-- `get_csp_directives`, as a duplicate-free list (the Rust result joins a `HashSet` with `,`) -/
-def Blocker.csp? (b : Blocker) (q : Request) : Option (List Str) :=
-  if q.tyName != "Document" && q.tyName != "Subdocument" then none else
-  let fs := b.csp.checkAll q b.tagsEnabled
-  if fs.isEmpty then none else
+/-- the merge of `get_csp_directives` over the matching csp filters: a duplicate-free list standing
+    for the `HashSet` difference the Rust code joins with `,` -/
+def cspMerge (fs : List Rule) : Option (List Str) :=
   if fs.any (fun f => f.isException && f.isCsp && f.modifier.isNone) then none else
   let disabled := (fs.filter (fun f => f.isException && f.isCsp)).filterMap (·.modifier)
   let enabled := (fs.filter (fun f => !f.isException && f.isCsp)).filterMap (·.modifier)
   let remaining := dedupS (enabled.filter (fun d => !disabled.contains d))
   if remaining.isEmpty then none else some remaining
+
+/-- `get_csp_directives` -/
+def Blocker.csp? (b : Blocker) (q : Request) : Option (List Str) :=
+  if q.tyName != "Document" && q.tyName != "Subdocument" then none else
+  cspMerge (b.csp.checkAll q b.tagsEnabled)
 
 /-- `check_generic_hide` -/
 def Blocker.genericHide? (b : Blocker) (q : Request) : Bool := (b.genericHide.check q []).isSome
